@@ -181,7 +181,7 @@ def join(a, b, depth=0):
     out = AV(kinds, elem=elem, vals=vals, pos=pos, nonempty=nonempty, big=a.big or b.big,
              integral_float=(a.integral_float or "float" not in a.kinds) and (b.integral_float or "float" not in b.kinds) and ("float" in kinds),
              strs=strs, schema=schema, keys_of=keys_of or frozenset(), items=items,
-             const=a.const if a.const == b.const else None)
+             const=a.const if a.const == b.const else _join_const(a.const, b.const))
     ba = a.bools if "bool" in a.kinds else frozenset()
     bb = b.bools if "bool" in b.kinds else frozenset()
     out.bools = (ba | bb) or frozenset([True, False])
@@ -192,6 +192,17 @@ def join(a, b, depth=0):
     if a.norm_tag == b.norm_tag and a.norm_tag in ("digits", "literal-schema"):
         out.norm_tag = a.norm_tag
     return out
+
+
+_ORDERING_FUNCS = frozenset(["operator.lt", "operator.le", "operator.gt", "operator.ge", "operator.<ordering>"])
+
+
+def _join_const(ca, cb):
+    """two different library callables that are both ordering comparisons (operator.lt / operator.le picked from a table):
+    still an ordering comparison, with the same demands on its operands"""
+    if ca and cb and ca[0] == cb[0] == "ext" and ca[1] in _ORDERING_FUNCS and cb[1] in _ORDERING_FUNCS:
+        return ("ext", "operator.<ordering>")
+    return None
 
 
 def join_all(avs):
